@@ -218,7 +218,19 @@ def part_kw(rng):
                 staves=rng.choice([1, 1, 2]), voices=rng.choice([1, 2, 2, 3]))
 
 
-def gen_inv(rng, malformed=False):
+INV_COLS = ("beat", "div", "both")
+INV_FIRST = ("neg", "zero", "pos")
+INV_TIME = ("none", "est", "tscol", "tslist")
+
+
+def inv_grid():
+    """every (time columns, sign of the first onset, source of the time signature) the inverse direction can meet;
+    an array with division columns only cannot have a negative onset (refused: malformed family)"""
+    return [(c, f, t) for c in INV_COLS for f in INV_FIRST for t in INV_TIME if not (c == "div" and f == "neg")]
+
+
+def gen_inv(rng, malformed=False, want=None):
+    """want = (cols, first, time) forces the three dimensions of inv_grid(); None = the round-1 distribution"""
     divs0 = rng.choice([1, 2, 3, 4, 5, 6, 7, 8, 9, 10, 11, 12, 16, 24, 48])
     n = rng.randint(1, 10)
     cols = rng.choice(["beat", "div", "both"])
@@ -227,6 +239,18 @@ def gen_inv(rng, malformed=False):
         ts = rng.choice([(4, 4), (3, 4), (6, 8), (2, 2), (3, 8)])
     rows = []
     pos = rng.choice([0, 0, 0, rng.randint(0, 3 * divs0)])
+    if want is not None:
+        if want[1] == "neg" and rng.random() < 0.6:
+            divs0 = rng.choice([3, 5, 6, 7, 9, 10, 11, 12, 24, 48])  # pickups float32 does not hold exactly
+        n = rng.randint(2, 10)
+        cols = want[0]
+        ts = rng.choice([(4, 4), (3, 4), (6, 8), (2, 2), (3, 8), (2, 4), (12, 8)]) if want[2] == "tscol" else None
+        pos = 0
+        if want[1] == "pos":
+            # a late entry / a slice of a piece: whole bars of rest, a fraction of a beat, one division, ...
+            pos = rng.choice([1, divs0, rng.randint(1, 6 * divs0), 4 * divs0 * rng.randint(1, 3), 7 * divs0 + 1])
+        elif want[1] == "neg" and cols == "both" and rng.random() < 0.3:
+            pos = rng.randint(1, divs0)  # the first note is not at the start of the pickup measure
     used = set()
     force_first = rng.random() < 0.6
     has_voice = rng.random() < 0.8
@@ -268,6 +292,27 @@ def gen_inv(rng, malformed=False):
         d["kw"]["sanitize"] = False
     if rng.random() < 0.1:
         d["kw"]["estimate_key"] = True
+    if want is not None:
+        d["grid"] = list(want)
+        lo = min(x["o"] for x in rows)
+        d["neg"] = 0
+        if want[1] == "neg":
+            # beat 0 lies `neg` divisions after time 0: some note has a negative beat.  Pickups of a fraction of a
+            # beat, of a whole bar and more, and of a value float32 does not hold exactly (5/6, 7/12, ...)
+            d["neg"] = lo + rng.choice([1, 1, rng.randint(1, 2 * divs0), rng.randint(1, 5 * divs0)])
+            down = [k for k in range(1, 3 * divs0) if Fraction(float(np.float32(k / divs0))) < Fraction(k, divs0)]
+            if down and rng.random() < 0.5:
+                d["neg"] = lo + rng.choice(down)  # the stored beat is nearer to 0 than the pickup it stands for
+        d["kw"].pop("estimate_time", None)
+        if want[2] == "est":
+            d["kw"]["estimate_time"] = True
+        elif want[2] == "tslist":
+            d["tsl"] = list(rng.choice([(4, 4), (3, 4), (2, 4), (5, 4)]))
+        if rng.random() < 0.25:
+            d["kw"]["sanitize"] = False
+        else:
+            d["kw"].pop("sanitize", None)
+        d["qcols"] = rng.random() < 0.3  # the quarter columns an array taken from a part carries as well
     if malformed:
         d["wf"] = False
         m = rng.choice(["negdur", "empty", "divs", "nodivs", "nofields"])
@@ -287,6 +332,11 @@ def cases(rng, tier):
         pd = gen_part(rng, "a", **part_kw(rng))
         yield {"k": "part", "part": pd, "combos": [[bool(m >> b & 1) for b in range(7)] for m in range(128)],
                "entry": "method"}
+    # the inverse direction over the whole grid (columns x sign of the first onset x source of the time signature),
+    # each cell at least twice per run: a cell that is only drawn now and then is a cell a change can hide in
+    for rep in range({"quick": 2, "thorough": 30, "search": 40}.get(tier, 2)):
+        for cell in inv_grid():
+            yield gen_inv(rng, want=cell)
     for i in range(n):
         r = rng.random()
         if r < 0.3:
@@ -1139,10 +1189,15 @@ def inv_array(d):
     divs0 = d["divs0"]
     cols = d["cols"]
     ts = d.get("ts")
-    bt = ts[1] if ts else 4
+    # beat columns next to division columns are beats of the time signature; beat columns alone are documented to be
+    # read as quarters whatever the signature
+    bt = ts[1] if (ts and cols == "both") else 4
+    qcols = bool(d.get("qcols"))
     fields, recs = [], []
     if cols in ("beat", "both"):
         fields += [("onset_beat", "f4"), ("duration_beat", "f4")]
+    if qcols:
+        fields += [("onset_quarter", "f4"), ("duration_quarter", "f4")]
     if cols in ("div", "both"):
         fields += [("onset_div", "i4"), ("duration_div", "i4")]
     fields += [("pitch", "i4")]
@@ -1161,6 +1216,8 @@ def inv_array(d):
             ob = Fraction(r["o"] - d.get("neg", 0), divs0) * Fraction(bt, 4)
             db = Fraction(dur, divs0) * Fraction(bt, 4)
             rec += (float(ob), float(db))
+        if qcols:
+            rec += (float(Fraction(r["o"] - d.get("neg", 0), divs0)), float(Fraction(dur, divs0)))
         if cols in ("div", "both"):
             rec += (r["o"], dur)
         rec += (r["p"],)
@@ -1175,8 +1232,75 @@ def inv_array(d):
     return arr
 
 
+def inv_kwargs(d):
+    kw = dict(d.get("kw", {}))
+    if d.get("tsl"):
+        kw["time_sigs"] = [[0, int(d["tsl"][0]), int(d["tsl"][1])]]
+    return kw
+
+
+def inv_signature(d):
+    """(beats, beat_type) of the one time signature the new part gets, None for a barebones part: the array's columns
+    override the time_sigs list, which overrides estimate_time (4/4)"""
+    if d.get("ts"):
+        return int(d["ts"][0]), int(d["ts"][1])
+    if d.get("tsl"):
+        return int(d["tsl"][0]), int(d["tsl"][1])
+    if d.get("kw", {}).get("estimate_time"):
+        return 4, 4
+    return None
+
+
+def inv_expected_back(d, dv):
+    """The onsets that went in, as the note array of the new part has to give them back, in quarters, with plain
+    Fractions: {(o, dur, p) of the description: quarter onset}; None when nothing can be said.
+
+    Reading.  A note array places its notes against beat 0; the new part must place them the same way:
+    * no negative onset: the onset that comes back is the onset that went in - a late entry, a leading rest, a slice
+      of a piece stays where it is (barebones or not);
+    * a negative first onset with a time signature: the pickup measure ends at beat 0, every onset comes back as it
+      went in, provided the pickup is shorter than a bar (a 'pickup' of a bar or more has no notation: not judged);
+    * a negative first onset without a time signature (barebones part, no measures): the documented shift - the
+      first note is at 0 and everything else keeps its distance to it.
+    Not judged: a piece that ends before its first bar line (the only measure of the new part is short and the time
+    maps of the part read a short first measure as a pickup: C02 / C11), bars that are not a whole number of the new
+    part's divisions, division and beat columns that contradict each other without any negative beat (beat 0 is
+    not time 0 and there is no pickup to explain it), beat-only arrays with a pickup under a signature that is not
+    in quarters (documented: 'possible error against div/beat')."""
+    divs0 = d["divs0"]
+    cols = d["cols"]
+    neg = d.get("neg", 0) if cols in ("beat", "both") else 0
+    rows = d["rows"]
+    sig = inv_signature(d)
+    sanitize = d.get("kw", {}).get("sanitize", True)
+    gq = {(r["o"], r["d"], r["p"]): Fraction(r["o"] - neg, divs0) for r in rows}
+    lo = min(gq.values())
+    if cols == "both" and neg > 0 and lo >= 0:
+        return None
+    if cols == "beat":
+        pick = -lo if lo < 0 else Fraction(0)      # the first note is moved to time 0
+        end = max(gq[k] + Fraction(k[1], divs0) for k in gq) + pick
+    else:
+        pick = Fraction(neg, divs0) if lo < 0 else Fraction(0)   # time 0 is `neg` divisions before beat 0
+        end = max(Fraction(k[0] + k[1], divs0) for k in gq)
+    if sig is None:
+        return {k: v + pick for k, v in gq.items()}
+    barq = Fraction(4 * sig[0], sig[1])
+    if pick > 0:
+        if cols == "beat" and sig[1] != 4:
+            return None
+        return gq if pick < barq else None
+    if sanitize:
+        if (barq * dv).denominator != 1:
+            return None
+        if 0 < end < barq:
+            return None
+    return gq
+
+
 def evaluate_inv(d, ev):
     from partitura.musicanalysis.note_array_to_score import note_array_to_score
+    import partitura.score as S
 
     arr = inv_array(d)
     names = arr.dtype.names
@@ -1193,12 +1317,17 @@ def evaluate_inv(d, ev):
                  W.i(r["ts_beat_type"]) if ht else "0"]
     req = "inv " + " ".join(toks)
     arr_before = arr.copy()
+    back = None
     try:
-        sc = note_array_to_score(arr, divs=d.get("divs_arg"), **d.get("kw", {}))
+        sc = note_array_to_score(arr, divs=d.get("divs_arg"), **inv_kwargs(d))
         part = sc.parts[0]
         qd = [int(q) for q in part._quarter_durations]
         na = part.note_array()
         trip = sorted((int(r["onset_div"]), int(r["duration_div"]), int(r["pitch"])) for r in na)
+        back = sorted((int(r["onset_div"]), int(r["duration_div"]), int(r["pitch"]), float(r["onset_quarter"]),
+                       float(r["onset_beat"]), float(r["duration_quarter"]), float(r["duration_beat"])) for r in na)
+        ms = sorted((int(m.start.t), int(m.end.t), str(m.name)) for m in part.iter_all(S.Measure))
+        first_t = int(part.first_point.t)
         out = "%d;%s" % (qd[0], W.f_list(lambda t: W.f_tuple(*("%d" % x for x in t)), trip))
         err = None
         # the sounding notes read off the timeline of the new part (not through note_array): chain heads, summed
@@ -1219,6 +1348,17 @@ def evaluate_inv(d, ev):
         out, err = "err", e
     ev.requests.append(req)
     ev.impl.append(out)
+    if err is None and d.get("wf", True):
+        # what the note array of the new part gives back in quarters and beats, the pickup measure and the first
+        # measure, against the model (fromArrayBack): the model is told the time signature and the sanitize flag
+        sig = inv_signature(d)
+        sanitize = d.get("kw", {}).get("sanitize", True)
+        ana = [e for s_, e, nm in ms if s_ == 0 and nm == "0"]
+        m1 = [e for s_, e, nm in ms if s_ == first_t]
+        ev.requests.append("invback %s %d %d %s" % (" ".join(toks[:4]), sig[0] if sig else 0, sig[1] if sig else 0,
+                                                    W.b(sanitize)) + " " + " ".join(toks[4:]))
+        ev.impl.append(("@approx", ["a:%d" % (ana[0] if ana else 0), "m:%s" % (m1[0] if m1 else "-"),
+                                    [[b[3], b[4]] for b in back]], RTOL))
     if not (arr == arr_before).all():
         ev.oracle.append("inverse frame: note_array_to_score modified its argument")
     if not d.get("wf", True):
@@ -1253,11 +1393,34 @@ def evaluate_inv(d, ev):
                              "(duration_div / duration_beat) say %d" % (dv, divs0))
         if d["cols"] == "div" and dv != d["divs_arg"]:
             ev.oracle.append("inverse divisions: new part has %d divisions, %d were given" % (dv, d["divs_arg"]))
+    # the onsets that come back are the onsets that went in (see inv_expected_back), in every unit the note array has
+    exp = inv_expected_back(d, dv)
+    if exp is not None and len(back) == len(d["rows"]):
+        sig = inv_signature(d)
+        f = Fraction(sig[1], 4) if sig else Fraction(1)
+        given = sorted(d["rows"], key=lambda r: (r["o"], r["d"], r["p"]))
+        for r, b in zip(given, back):
+            q = exp[(r["o"], r["d"], r["p"])]
+            dq = Fraction(r["d"], divs0)
+            if b[2] != r["p"]:
+                break
+            if not (close(b[3], q) and close(b[4], q * f)):
+                ev.oracle.append("inverse onsets back: the note of pitch %d went in at quarter %s (first onset of the array %s, "
+                                 "%s columns, time signature %s), it comes back at quarter %r / beat %r instead of %s / %s" % (
+                                     r["p"], Fraction(r["o"] - (d.get("neg", 0) if d["cols"] != "div" else 0), divs0),
+                                     min(Fraction(x["o"] - (d.get("neg", 0) if d["cols"] != "div" else 0), divs0) for x in d["rows"]),
+                                     d["cols"], sig, b[3], b[4], q, q * f))
+                break
+            if not (close(b[5], dq) and close(b[6], dq * f)):
+                ev.oracle.append("inverse durations back: the note of pitch %d lasts %s quarters, %r quarters / %r beats come back" % (
+                    r["p"], dq, b[5], b[6]))
+                break
+        ev.info["back"] = 1
     # sanitize=True (measures, ties across barlines, tuplets) must not change what sounds: same triples as the
     # part made from the same array without it
     if d.get("kw", {}).get("sanitize", True):
         try:
-            kw2 = dict(d.get("kw", {}))
+            kw2 = inv_kwargs(d)
             kw2["sanitize"] = False
             p2 = note_array_to_score(inv_array(d), divs=d.get("divs_arg"), **kw2).parts[0]
             t2 = sorted((e["onset_div"], e["duration_div"], e["pitch"]) for e in expected_rows(p2).values())
